@@ -28,7 +28,8 @@ func init() {
 	}
 	add("quick", 0, 0, 0, 2, 3, 0)
 	add("thorough", 0, 1, 0, 1, 0, 0)
-	add("quick", 0, 3, 1, 1, 5, 0)
+	add("quick", 0, 4, 1, 1, 5, 0)
+	add("thorough", 0, 3, 1, 1, 5, 0)
 	add("thorough", 1, 3, 0, 1, 0, 1)
 	add("thorough", 0, 0, 0, 2, 3, 0)
 	add("thorough", 2, 0, 2, 2, 5, 0)
